@@ -402,6 +402,20 @@ def r6_wiring(repo):
     obs.append(Ob("C17-R6", "switches-written-only-by-args.py", "src/args.py", not others and not jc and not mod_calls,
                   "other writers of the switches: %s; callers of GenConfig.json_config (setattr-based): %s %s"
                   % (others, jc, mod_calls)))
+    # the configuration object that carries the switches is built once: `cfg = GenConfig()` at the bottom of config.py.
+    # Any other construction site re-runs the defaults whenever the singleton discipline is not airtight (a __new__-based
+    # singleton calls __init__ on every `GenConfig()`), i.e. resets the switches in the middle of a run
+    sites = []
+    for mm in repo.modules.values():
+        for n in ast.walk(mm.tree):
+            if isinstance(n, ast.Call) and src(n.func).split(".")[-1] in ("GenConfig", "Disabled", "Probabilities"):
+                fn_ = repo.enclosing_function(n)
+                where = "%s:%d%s" % (mm.relpath, n.lineno, "" if fn_ is None else " in " + fn_.name)
+                own = mm.name == "src.generators.config" and (fn_ is None or fn_.name == "__init__")
+                if not own:
+                    sites.append(where)
+    obs.append(Ob("C17-R6", "configuration-object-built-once", "src/generators/config.py", not sites,
+                  "the objects that hold the switches are constructed outside config.py's own initialisation: %s" % sites))
     # the guards read the very attributes
     f = repo.fn("src.ir.type_utils._get_type_arg_variance")
     reads = {src(n) for n in iter_own_nodes(f.node) if isinstance(n, ast.Attribute) and src(n).startswith("cfg.dis.")}
